@@ -163,6 +163,8 @@ func GateSpecs(c *Ctx, prop string) []GateSpec {
 		for _, f := range methodsOf(p, core.ModPath+"/pairing", "Suite", "ValidatePairing", "Pair") {
 			s = append(s, GateSpec{Func: f})
 		}
+		// CIRCL's batched pairing product must not be reached with an identity G1 operand
+		s = append(s, GateSpec{Func: "(pairing/bls12381/circl.Suite).ValidatePairing", Sink: `call:ProdPairFrac$`, NoRet: true})
 		// identity operands: every path on which an operand is the point at infinity passes SetOne
 		s = append(s, GateSpec{Func: "pairing/bn256.optimalAte", Block: `call:\.SetOne$`}, GateSpec{Func: "pairing/bn254.optimalAte", Block: `call:\.SetOne$`})
 	case "C19":
